@@ -188,7 +188,7 @@ func c13Run(k *fw.K, cs c13Case) {
 	tr := &funcTransceiver{f: card.Transceive}
 	nfc := iso7816.NewNfcSession(tr)
 	if sel, err := nfc.SelectAid(chipsim.LDS1AID); err != nil || !sel {
-		fw.Bug("SelectAid on the simulated chip failed: %v", err)
+		fw.LibFail("select-aid-failed", "SelectAid on the conforming simulated chip failed: %v", err)
 	}
 	if cs.sm > 0 {
 		suite := symref.TDES
